@@ -67,7 +67,7 @@ CHECKS = {
                          {"ws": "loomh", "bin": "loom_log", "args": ["--prop", "C02"], "timeout": 10000}],
         },
         "text": "For every history of <= d steps (quick 3, thorough 4) over a 10-symbol alphabet plus every prefix of 4 curated 10-12 step histories, the real store runs under an in-binary interposer that journals every mutating system call; for every crash point inside the last step (earlier steps are the shorter histories) the directory image is rebuilt from the journal prefix, in the persistence model where every completed call persists and in every variant that loses trailing unsynced writes of any subset of files, and recovered by the real open; reads must match the acknowledged writes (plus, optionally, the whole in-flight write), open must not fail or panic, and the store must accept a further write, flush and compaction. Every single EIO, ENOSPC and short write at every mutating call of the last step is injected too: no panic, and an operation that returns Ok counts as acknowledged.",
-        "note": "Crash granularity is the system call; directory operations persist on return (the property's model). The journal model is validated against the real directory after every history. Torn writes inside one call are C09/C12/C13's business. Double faults are not explored.",
+        "note": "Crash granularity is the system call; directory operations persist on return (the property's model). The journal model is validated against the real directory after every history. Torn writes inside one call are C09/C12/C13's business. Double faults are not explored. The clause 'an I/O error is surfaced, not acknowledged as success' is additionally decided for concurrent appenders: loom_log --prop C02 explores every interleaving (preemption bounds 1-3, unbounded where the budget allows) of 2-3 threads appending through the real ConcurrentLogBuilder while the first or second fdatasync fails; no append whose bytes were not covered by a successful fdatasync may return Ok.",
     },
     "C17": {
         "level": "model_checking",
@@ -89,7 +89,7 @@ CHECKS = {
         "jobs": {
             "quick": [tree("C04", 5, 4, alphabet=ING_STALL, cfgs="A-min,B-l0"), seq("C04", 4), {"ws": "harness", "bin": "crash_store", "args": ["--prop", "C04", "--depth", 3, "--cfgs", "A-min", "--no-faults"], "timeout": 3000},
                       {"ws": "harness", "bin": "tamper", "args": [], "timeout": 3000}],
-            "thorough": [tree("C04", 6, 5, alphabet=ING_STALL), seq("C04", 5), seq("C04", 4, COVER), {"ws": "harness", "bin": "crash_store", "args": ["--prop", "C04", "--depth", 4, "--cfgs", "A-min,B-l0", "--no-faults"], "timeout": 6000},
+            "thorough": [tree("C04", 6, 5, ["--min-depth", 5, "--budget", 1800], alphabet=ING_STALL), seq("C04", 5), seq("C04", 4, COVER), {"ws": "harness", "bin": "crash_store", "args": ["--prop", "C04", "--depth", 4, "--cfgs", "A-min,B-l0", "--no-faults"], "timeout": 6000},
                          {"ws": "harness", "bin": "tamper", "args": [], "timeout": 6000}],
         },
         "text": "After every history of <= d steps (manifest rollover ratio 1 so that fragments roll constantly) all manifest fragments are parsed independently of the store: every transaction must satisfy I = O + D, D = removed - added, I = previous O across fragments, every roll-up must list exactly the accumulated set, the last O must equal the sum of the listed digests and the set the live tree lists, and every listed SST's recorded setsum must equal the setsum recomputed from its entries; ManifestVerifier must accept every fragment and LsmVerifier passes (the V step) must not report corruption. The same oracle runs on every recovered crash image (all crash points of the last step, both persistence models).",
@@ -101,7 +101,7 @@ CHECKS = {
         "design_ref": "DESIGN.md 4 (C05)",
         "jobs": {
             "quick": [tree("C05", 5, 3, alphabet=ING_STRADDLE), seq("C05", 4)],
-            "thorough": [tree("C05", 6, 4, alphabet=ING_STRADDLE), seq("C05", 5), seq("C05", 4, "A-min,B-l0,F-anygc,G-mand4-stall2")],
+            "thorough": [tree("C05", 6, 4, ["--min-depth", 5, "--budget", 1800], alphabet=ING_STRADDLE), seq("C05", 5), seq("C05", 4, "A-min,B-l0,F-anygc,G-mand4-stall2")],
         },
         "text": "For every history of <= d steps over an alphabet with 1.5 KiB values and 4 KiB target files (so that compaction outputs split, also inside one key's version run) whose last step is a compaction, every entry (key, timestamp, value-or-tombstone) of every manifest-listed SST is dumped before and after the step. Unless the oldest level changed, the multisets must be equal. For a garbage collection nothing may be invented, a dropped value must have at least N newer entries of its key (versions = N), a dropped tombstone must not expose an older retained value, and the newest entry of every key must survive; with any(versions=1, ttl) at now=0 no value may be dropped.",
         "note": "The GC oracle is a conjunction of safety conditions implied by every reading of the policy documentation; retaining more than the policy requires is always allowed. A further job runs the same oracles on a bare LsmTree fed through LsmTree::ingest with externally built SSTs (ten file shapes: single puts and tombstones, whole-range files, a 5 KiB value, two versions of a key in one file; timestamps grow with the step), compaction steps, reopen and verifier passes, from the empty tree and from four seeded states (stacked oldest levels with and without a pending level-0 file, a lower-level file whose timestamps straddle an overlapping upper-level file, before and after reopening). Where the alphabet says so (C01 C04 C08 C20) it also contains two file shapes whose timestamp range straddles earlier files and ingests that park on the level-0 stall (helper thread, completed by whichever later compaction step makes room; a parked flush F! does the same for the store subject): the interplay of a stalled writer with compactions and GCs is then part of the sequential state space.",
@@ -126,7 +126,7 @@ CHECKS = {
         "jobs": {
             "quick": [tree("C07", 5, 3, alphabet=ING_SCAN), seq("C07", 4), {"ws": "loomh", "bin": "loom_kvs", "args": ["--prop", "C07"], "timeout": 1200},
                       {"ws": "harness", "bin": "sched_store", "args": ["--prop", "C07"], "timeout": 1200}],
-            "thorough": [tree("C07", 6, 4, alphabet=ING_SCAN), seq("C07", 5), seq("C07", 4, "A-min,D-stall12,F-anygc,H-mem64-mand1"), {"ws": "loomh", "bin": "loom_kvs", "args": ["--prop", "C07"], "timeout": 10000},
+            "thorough": [tree("C07", 6, 4, ["--min-depth", 5, "--budget", 1800], alphabet=ING_SCAN), seq("C07", 5), seq("C07", 4, "A-min,D-stall12,F-anygc,H-mem64-mand1"), {"ws": "loomh", "bin": "loom_kvs", "args": ["--prop", "C07"], "timeout": 10000},
                          {"ws": "harness", "bin": "sched_store", "args": ["--prop", "C07"], "timeout": 10000}],
         },
         "text": "The alphabet adds 'open a scan and keep it' (two bound pairs) and cursor movements on kept cursors (next, prev, seek) to writes, flush, compaction, compact-until-idle and verifier passes; every sequence of <= d steps is run; each kept cursor must show exactly what a vector cursor over the model AT OPEN TIME shows, every movement must return Ok, nothing may panic, and no released skiplist node may be dereferenced (allocation registry).",
@@ -138,7 +138,7 @@ CHECKS = {
         "design_ref": "DESIGN.md 4 (C08)",
         "jobs": {
             "quick": [tree("C08", 4, 3, alphabet=ING_STALL), seq("C08", 5), {"ws": "harness", "bin": "crash_store", "args": ["--prop", "C08", "--depth", 3, "--cfgs", "A-min", "--no-faults"], "timeout": 3000}],
-            "thorough": [tree("C08", 6, 4, alphabet=ING_STALL), seq("C08", 6), {"ws": "harness", "bin": "crash_store", "args": ["--prop", "C08", "--depth", 4, "--cfgs", "A-min,B-l0", "--no-faults"], "timeout": 6000}],
+            "thorough": [tree("C08", 6, 4, ["--min-depth", 5, "--budget", 1800], alphabet=ING_STALL), seq("C08", 6), {"ws": "harness", "bin": "crash_store", "args": ["--prop", "C08", "--depth", 4, "--cfgs", "A-min,B-l0", "--no-faults"], "timeout": 6000}],
         },
         "text": "Every history of <= d steps over writes, flush, compaction, compact-until-idle, reopen and verifier passes: after the last step every SST the live version lists must be present in sst/, and all point reads must match the model (so a verifier pass or orphan clean-up that removed a needed file is seen at the next reopen/read). The crash explorer additionally cuts every verifier pass, compaction and reopen at every system call (both persistence models), reopens and reads back.",
         "note": "Reader snapshots held across retirement are C07's business; log files needed for unreplayed writes are covered by the read-back after reopen. A further job runs the same oracles on a bare LsmTree fed through LsmTree::ingest with externally built SSTs (ten file shapes: single puts and tombstones, whole-range files, a 5 KiB value, two versions of a key in one file; timestamps grow with the step), compaction steps, reopen and verifier passes, from the empty tree and from four seeded states (stacked oldest levels with and without a pending level-0 file, a lower-level file whose timestamps straddle an overlapping upper-level file, before and after reopening). Where the alphabet says so (C01 C04 C08 C20) it also contains two file shapes whose timestamp range straddles earlier files and ingests that park on the level-0 stall (helper thread, completed by whichever later compaction step makes room; a parked flush F! does the same for the store subject): the interplay of a stalled writer with compactions and GCs is then part of the sequential state space.",
@@ -154,7 +154,7 @@ CHECKS = {
                          {"ws": "harness", "bin": "crash_mani", "args": ["--depth", 5], "timeout": 7200}],
         },
         "text": "Every sequence of edits (add, rm, info, combined, empty), rollovers and reopens up to depth 2 over a 163-symbol alphabet of hostile strings and keys and depth 3 over a 33-symbol core alphabet, at rollover ratios 1, 2 and 1000: in-memory state, state after reopen, Manifest::verify, and fragment chaining (each fragment begins with the roll-up of the complete state) must match a BTreeSet/BTreeMap model; newline must be refused; a second open of a locked manifest must fail, also from another process. Every truncation length of MANIFEST for 6 curated and all core histories <= 2: reopen yields a prefix state or an explicit error, never a partial edit, never a panic.",
-        "note": "crash_mani: every history <= 4 (thorough 5) over a 9-symbol alphabet x ratios {1, 2, 1000} under the syscall journal, every crash point of the last operation (apply, rollover, open-time rollover) in both persistence models: reopen yields the state before or after the in-flight edit or an explicit error, and Manifest::verify reports nothing. A layered alphabet replaces the infeasible full-alphabet depth 5 in seq_mani.",
+        "note": "crash_mani: every history <= 4 (thorough 5) over a 9-symbol alphabet x ratios {1, 2, 1000} under the syscall journal, every crash point of the last operation (apply, rollover, open-time rollover) in both persistence models: reopen yields the state before or after the in-flight edit or an explicit error, and Manifest::verify reports nothing. A layered alphabet replaces the infeasible full-alphabet depth 5 in seq_mani. Two openers, one lock: a second process calls Manifest::open and is observed blocked in fcntl(F_SETLKW) (through /proc/<pid>/syscall) after the first opener's k-th edit; the first applies m more edits and closes; the second must see all k+m edits, and so must a reopen (it optionally applies an edit of its own): every split k+m <= 4 (thorough 6) x 3 rollover ratios, which is every interleaving of the two at edit granularity because the lock serialises them. Every truncation case is continued with one more edit and a reopen (a torn tail must not leak into, or damage, what is recorded afterwards).",
     },
     "C15": {
         "level": "exploration",
@@ -197,10 +197,10 @@ CHECKS = {
         "design_ref": "DESIGN.md 4 (C20)",
         "jobs": {
             "quick": [tree("C20", 5, 3, alphabet=ING_STALL, cfgs="A-min,B-l0,I-bytes2k,J-stallbytes"), seq("C20", 5, "A-min,B-l0,E-files2,G-mand4-stall2,I-bytes2k,J-stallbytes"), {"ws": "loomh", "bin": "loom_kvs", "args": ["--prop", "C20"], "timeout": 1200}],
-            "thorough": [tree("C20", 6, 4, alphabet=ING_STALL, cfgs="A-min,B-l0,C-default,I-bytes2k,J-stallbytes"), seq("C20", 6, COVER), {"ws": "loomh", "bin": "loom_kvs", "args": ["--prop", "C20"], "timeout": 10000}],
+            "thorough": [tree("C20", 6, 4, ["--min-depth", 5, "--budget", 1800], alphabet=ING_STALL, cfgs="A-min,B-l0,C-default,I-bytes2k,J-stallbytes"), seq("C20", 6, COVER), {"ws": "loomh", "bin": "loom_kvs", "args": ["--prop", "C20"], "timeout": 10000}],
         },
         "text": "Sequential: in every state reached by a history of <= d steps (flush is only enabled when it would not park) in which level 0 holds back ingest, running the compaction loop until idle must end the stall within 64 compactions; a state that is stalled with no selectable compaction is a deadlock witness (configuration + history). Concurrent: a writer, one flush-loop iteration that has to ingest into a level 0 at the stall threshold, and 1-2 real compaction loops (released by a stop request once writer and flush are through); loom reports any execution in which every thread is parked.",
-        "note": "Deadlock-freedom inside the bounds, not fair termination; thresholds from the grid rows; one store open per loom execution limits the quick tier to preemption bound 1-2. A further job runs the same oracles on a bare LsmTree fed through LsmTree::ingest with externally built SSTs (ten file shapes: single puts and tombstones, whole-range files, a 5 KiB value, two versions of a key in one file; timestamps grow with the step), compaction steps, reopen and verifier passes, from the empty tree and from four seeded states (stacked oldest levels with and without a pending level-0 file, a lower-level file whose timestamps straddle an overlapping upper-level file, before and after reopening). Where the alphabet says so (C01 C04 C08 C20) it also contains two file shapes whose timestamp range straddles earlier files and ingests that park on the level-0 stall (helper thread, completed by whichever later compaction step makes room; a parked flush F! does the same for the store subject): the interplay of a stalled writer with compactions and GCs is then part of the sequential state space.",
+        "note": "Deadlock-freedom inside the bounds, not fair termination; thresholds from the grid rows; one store open per loom execution limits the quick tier to preemption bound 1-2. A further job runs the same oracles on a bare LsmTree fed through LsmTree::ingest with externally built SSTs (ten file shapes: single puts and tombstones, whole-range files, a 5 KiB value, two versions of a key in one file; timestamps grow with the step), compaction steps, reopen and verifier passes, from the empty tree and from four seeded states (stacked oldest levels with and without a pending level-0 file, a lower-level file whose timestamps straddle an overlapping upper-level file, before and after reopening). Where the alphabet says so (C01 C04 C08 C20) it also contains two file shapes whose timestamp range straddles earlier files and ingests that park on the level-0 stall (helper thread, completed by whichever later compaction step makes room; a parked flush F! does the same for the store subject): the interplay of a stalled writer with compactions and GCs is then part of the sequential state space. Rows I-bytes2k (max_compaction_bytes below two level-0 files), J-stallbytes (thresholds by bytes) and, in the thorough tier, K-openfiles4 put the limits of the property's last sentence into the grid; the seeds full-stack-of-overlapping-files (sixteen stacked 5 KiB files: every level occupied) and time-interleaved-overlapping-files-reopened (level-0 files that cannot sink one by one) reach stalls that only a merge relieves. max_open_files below 4 is not explored: a compaction then fails with an explicit too-many-open-files error from the file manager, which is the documented meaning of that limit.",
     },
     "C14": {
         "level": "exploration",
